@@ -117,6 +117,7 @@ def netStep (n : NetS) (toks : List String) : Option NetS :=
     let b ← Proto.ofHex? a
     pure (n.setAddr o b)
   | ["cap", c] => c.toNat?.map fun k => { n with cap := k }
+  | ["hints", l] => (Proto.natList? l).map fun hs => { n with hints := hs }
   | _ => none
 
 def step (st : St) (toks : List String) : St × String :=
